@@ -510,6 +510,51 @@ func c08SchedScenario(kind string) *mc.Scenario {
 	}}
 }
 
+// c08TwoCompactions: two overlapping compaction requests, the lower one possibly finishing last:
+// afterwards the floor is the higher of the accepted revisions, for every read path and both nodes.
+func c08TwoCompactions() *mc.Scenario {
+	return &mc.Scenario{Name: "C08/sched/two-overlapping-compactions", Body: func(x *mc.X) {
+		so := &mc.SeqOut{}
+		cfg := cmpCfg{engine: hx.Mem, keys: []string{"/r/a", "/r/b"}}
+		w := newCmpWorld(cfg, "C08", so)
+		defer w.close()
+		for _, o := range []seqOp{{0, rCreate, "a1"}, {0, rUpdOK, "a2"}, {1, rCreate, "b1"}, {0, rUpdOK, "a3"}, {1, rUpdOK, "b2"}} {
+			if !w.applyOp(so, w.m, "C08", cfg.keys[o.key], o) {
+				panic("initial history failed")
+			}
+		}
+		revs := []uint64{base + 2, base + 4}
+		accepted := make([]bool, len(revs))
+		vrt.BeginExplore()
+		var ths []*vrt.Thread
+		for i := range revs {
+			i := i
+			ths = append(ths, vrt.Go(func() {
+				_, err := w.b.Compact(bg, revs[i])
+				accepted[i] = err == nil
+			}))
+		}
+		for _, t := range ths {
+			vrt.Join(t)
+		}
+		vrt.Quiesce()
+		vrt.EndExplore()
+		floor := uint64(0)
+		for i, ok := range accepted {
+			if ok && revs[i] > floor {
+				floor = revs[i]
+			}
+		}
+		w.m.floor, w.record = floor, floor
+		if floor != 0 {
+			w.checkFloor()
+		}
+		x.Viols = append(x.Viols, so.Viols...)
+		x.Obs = fmt.Sprintf("accepted=%v", accepted)
+		w.clean = true
+	}}
+}
+
 func driveCompactBFS(c *mc.Ctx, cfgs []int) {
 	stats := map[string]mc.SeqStats{}
 	total := mc.SeqStats{}
@@ -533,19 +578,19 @@ func init() {
 		ID:    "C08",
 		Level: "model_checking",
 		Rule: "explicit-state BFS over sequences of writes on 2 keys and compaction requests (revision 0, every revision up to the depth, above the current revision; hence increasing, repeated, decreasing orders), de-duplicated on model state + rank-normalised storage; " +
-			"after every step List, limited List and streamed range are issued at every revision from the first to the committed one: refused below the highest accepted compaction revision, served at or above it; the stored compaction record must equal that floor; the same reads are also issued through a second, long-lived node over the same store (a follower that adopted the leader's read revision and served an ordinary read after every step); plus every schedule without preemptions (one preemption for the limited List and in thorough) of a compaction at R against range reads at revisions below R (two Lists; one streamed range; two limited Lists): a List ends with an error or with the whole snapshot at its revision, a stream without error holds the whole snapshot, and afterwards the floor is in force",
+			"after every step List, limited List and streamed range are issued at every revision from the first to the committed one: refused below the highest accepted compaction revision, served at or above it; the stored compaction record must equal that floor; the same reads are also issued through a second, long-lived node over the same store (a follower that adopted the leader's read revision and served an ordinary read after every step); plus every schedule without preemptions (one preemption for the limited List and in thorough) of a compaction at R against range reads at revisions below R (two Lists; one streamed range; two limited Lists): a List ends with an error or with the whole snapshot at its revision, a stream without error holds the whole snapshot, and afterwards the floor is in force; and of two overlapping compaction requests (afterwards the floor is the higher accepted revision)",
 		Assume: []string{"the history search uses a single client and the default schedule, quiescence after every request; reads racing a compaction are covered by the schedule scenarios", "in-memory engine (thorough: badger and tikv-mock at depth 3)"},
 		Exec:   func(j *mc.Job) *mc.JobResult { return mc.SeqExec(j, c08Run(j.Tier)) },
 		Scenarios: func(tier string) []*mc.Scenario {
 			// (a count is always taken at the latest revision: it cannot be below a floor)
-			return []*mc.Scenario{c08SchedScenario("list"), c08SchedScenario("stream"), c08SchedScenario("limited-list")}
+			return []*mc.Scenario{c08SchedScenario("list"), c08SchedScenario("stream"), c08SchedScenario("limited-list"), c08TwoCompactions()}
 		},
 		Drive: func(c *mc.Ctx) {
 			full := c.Deadline
 			c.Deadline = c.Start.Add(full.Sub(c.Start) / 3)
 			mc.DriveSchedules(c, func(i int, sc *mc.Scenario) mc.SchedPlan {
 				p := mc.SchedPlan{Class: "compaction-vs-reads-below-the-new-floor", Bounds: []int{0}, Shard: true}
-				if c.Tier == "thorough" || strings.Contains(sc.Name, "limited-list") {
+				if c.Tier == "thorough" || strings.Contains(sc.Name, "limited-list") || strings.Contains(sc.Name, "two-overlapping") {
 					// (a limited List scans in the caller's own thread: losing the race takes one preemption)
 					p.Bounds = []int{0, 1}
 				}
